@@ -292,7 +292,13 @@ pub fn generate(rng: &mut Rng, tier: Tier) -> Plan {
         }
         1 => {
             let w = rng.below(7) as u8;
-            let c = gen_cal(rng, w, max_hols);
+            let mut c = gen_cal(rng, w, max_hols);
+            if rng.chance(0.03) {
+                // closed every day of the week: legal to build, save and compare; the query
+                // suite then asks membership questions only
+                c.mask = (0..7u8).collect();
+                rng.shuffle(&mut c.mask);
+            }
             let probes = probe_dates(rng, &[&c]);
             let mut ops = vec![];
             insert_restarts(rng, &mut ops, false);
@@ -303,7 +309,18 @@ pub fn generate(rng: &mut Rng, tier: Tier) -> Plan {
             }
         }
         2 => {
-            let u = gen_union(rng, max_hols.min(120));
+            let mut u = gen_union(rng, max_hols.min(120));
+            if rng.chance(0.03) {
+                // one leg (business or settlement) that never opens
+                let closed: Vec<u8> = (0..7u8).collect();
+                if let (Some(s), true) = (u.settle.as_mut(), rng.chance(0.5)) {
+                    if let Some(c) = s.first_mut() {
+                        c.mask = closed;
+                    }
+                } else if let Some(c) = u.members.first_mut() {
+                    c.mask = closed;
+                }
+            }
             let all: Vec<&CalSpec> = u
                 .members
                 .iter()
@@ -915,6 +932,16 @@ pub fn cal_answers<C: DateRoll>(c: &C, probes: &[i64]) -> Vec<(String, u64)> {
         Modifier::P,
         Modifier::ModP,
     ];
+    // a calendar (or its settlement side) with no working weekday at all cannot be rolled:
+    // only membership questions are asked of it
+    let week: Vec<NaiveDateTime> = (0..7).map(|k| ts_to_ndt((20_000 + k) * 86_400)).collect();
+    let never_open = !week.iter().any(|d| c.is_weekday(d));
+    let never_settles = {
+        // is_settlement true on at least one of 14 consecutive far-future days?
+        !(0..14)
+            .map(|k| ts_to_ndt((3_000_000 + k) * 86_400))
+            .any(|d| c.is_settlement(&d) && c.is_weekday(&d))
+    };
     for p in probes {
         let d = ts_to_ndt(*p);
         let mut h = Fnv::new();
@@ -922,6 +949,10 @@ pub fn cal_answers<C: DateRoll>(c: &C, probes: &[i64]) -> Vec<(String, u64)> {
         h.u64(c.is_holiday(&d) as u64);
         h.u64(c.is_bus_day(&d) as u64);
         h.u64(c.is_settlement(&d) as u64);
+        if never_open || never_settles {
+            out.push((format!("calendar membership on {}", d), h.finish()));
+            continue;
+        }
         for m in &mods {
             for s in [false, true] {
                 dt(&mut h, &c.roll(&d, m, s));
@@ -1928,6 +1959,8 @@ pub fn shrink(plan: &Plan) -> Vec<Plan> {
                 setup: setup.clone(),
                 history: c12::History::Sequence(vec![]),
                 queries: queries.clone(),
+                query_ns: vec![],
+                sibling: false,
             };
             for cand in c12::shrink(&inner) {
                 if cand.history != c12::History::Sequence(vec![]) {
